@@ -68,6 +68,10 @@ def register(reg):
     reg.opaque_methods[("Expr", "to_python")] = Contract(key="Expr.to_python", params={"want_inline_parens": T.bool}, assumed=True, apply=to_python_apply)
     reg.opaque_attrs[("PyText", "is_in_parens")] = lambda eng, st, o: VScalar(_fns(eng.S)[2](o.z), T.bool)
     reg.globals[("isinstance", "Expr", "ColumnReference")] = lambda eng, st, v: _fns(eng.S)[4](v.z)
+    # an operand may itself be an Expression: without this hook the engine decides isinstance(opaque operand, <declared class>) as False and would treat
+    # code guarded by such a test as dead (found with seeded change s5-C12); with it the branch is feasible, and reads of the operand's fields leave
+    # the modelled subset (target reported undecided, never "discharged")
+    reg.globals[("isinstance", "Expr", "Expression")] = lambda eng, st, v: eng.S.func("is_Expression", eng.S.sort("Expr"), z3.BoolSort())(v.z)
 
     def new_pytext(eng, st, argmap, node):
         pt, text, par, mk, iscol, cat, join = _fns(eng.S)
